@@ -147,6 +147,29 @@ class ExpressionTransformer:
                 utils.ast_debug_info(node)
                 + f"Unable to convert node '{type(node).__name__}'"
             )
+        elif (
+            isinstance(node, Call)
+            and isinstance(node.func, Name)
+            and node.func.id == "super"
+            and not node.args
+            and not node.keywords
+            and getattr(self.nsp, "zero_arg_super_used", False)
+            and self.nsp.symt.get_parameters()
+        ):
+            # A zero-argument super() reads `__class__` and the first argument
+            # of the frame it is called in. Converted loops and conditions run
+            # in frames of their own (lambdas, comprehensions before 3.12),
+            # so spell the two arguments out.
+            return PendingExpr(
+                Call(
+                    func=node.func,
+                    args=[
+                        Name(id="__class__", ctx=Load()),
+                        Name(id=self.nsp.symt.get_parameters()[0], ctx=Load()),
+                    ],
+                    keywords=[],
+                )
+            )
         else:
             return PendingExpr(node)
 
